@@ -34,6 +34,8 @@ type pairCase struct {
 	spells []spelling
 	shape  string // literal-free description for evidence / signatures
 	pred   *g6blib.Expr
+	pos    string // filter | select-list (predicate rules)
+	nid    int    // number of identifying columns in the result
 	// rebuild re-renders the spellings for a (minimised) predicate; nil when the rule has no single predicate
 	rebuild func(p *g6blib.Expr) []spelling
 }
@@ -66,7 +68,7 @@ func exec(s *core.Sess, sp spelling) result {
 	case r.TimedOut:
 		return result{err: "timeout"}
 	case r.Err != nil:
-		return result{err: r.ErrClass() + ":" + core.StripVolatile(r.Err.Error())}
+		return result{err: r.ErrClass() + ":" + slug(core.StripVolatile(r.Err.Error()))}
 	}
 	return result{rows: core.SortedRows(r.Rows)}
 }
@@ -94,9 +96,16 @@ func compare(s *core.Sess, spells []spelling) (string, string, map[string]any, *
 		return "inconclusive", "all-spellings-error:" + res[0].err, det, nil
 	}
 	if nerr > 0 {
+		// one spelling fails while an equivalent one answers: the failing spelling did not deliver the result
+		// SQL prescribes (timeouts stay inconclusive)
+		for i := range res {
+			if res[i].err == "timeout" {
+				return "inconclusive", "timeout", det, nil
+			}
+		}
 		for i := range res {
 			if res[i].err != "" {
-				return "inconclusive", "error-asymmetry:" + spells[i].name + ":" + res[i].err, det, nil
+				return "error-asymmetry", spells[i].name + ":" + res[i].err, det, nil
 			}
 		}
 	}
@@ -121,7 +130,7 @@ func main() {
 		"one evaluation = one group of 2–4 equivalent spellings of a query (one rewrite rule applied to a generated query on a seeded database) whose result multisets are compared; distinct = (rule, literal-free shape of the rewritten construct) counted only when the result is non-empty")
 	r.Fold(8, 3)
 	r.Assume("rules are applied only where SQL guarantees equivalence: IN/EXISTS/semi-join only with NOT NULL keys in positive position; NOT IN <-> NOT EXISTS is not a rule; literal-vs-column gives the column the literal's reported type")
-	r.Assume("a group in which some spelling returns an error is inconclusive (counted by reason); a panic is a violation")
+	r.Assume("a group in which every spelling returns an error is inconclusive; an error in one spelling while an equivalent spelling answers is a violation (signature = rule, failing spelling, error text), a panic is a violation")
 	perCase := 10
 	n := r.N(2500, 60000) / perCase
 	only := map[int]bool{}
@@ -184,6 +193,14 @@ func evalPair(r *core.Run, s *core.Sess, sc *g6blib.Schema, pc *pairCase, caseID
 		w["panic"] = pn.Value
 		w["stack"] = core.Clip(pn.Stack, 3000)
 		r.Violation(classifyPanic(pc, pn), w)
+		return
+	case "error-asymmetry":
+		r.Eval(1)
+		r.Count("rule."+pc.rule, 1)
+		w := witness()
+		sig := "c06:" + pc.rule + ":error-in-one-spelling:" + mode
+		w["signature"] = sig
+		r.Violation(sig, w)
 		return
 	case "inconclusive":
 		r.Inconclusive(pc.rule + ":" + mode)
@@ -248,6 +265,26 @@ func plans(s *core.Sess, sp []spelling) map[string]string {
 		}
 	}
 	return out
+}
+
+// slug makes an error text usable inside a signature token (no spaces).
+func slug(s string) string {
+	var b strings.Builder
+	dash := false
+	for _, c := range strings.ToLower(s) {
+		if (c >= 'a' && c <= 'z') || (c >= '0' && c <= '9') {
+			b.WriteRune(c)
+			dash = false
+		} else if !dash {
+			b.WriteByte('-')
+			dash = true
+		}
+	}
+	out := strings.Trim(b.String(), "-")
+	if len(out) > 48 {
+		out = out[:48]
+	}
+	return strings.Trim(out, "-")
 }
 
 // createOne executes the pseudo statement "@@create-one <table> <lit> ||| <lit> …": a one-row table whose
